@@ -346,6 +346,8 @@ impl Prop for C18 {
         out.set_exhaustive("kitchen", true);
       }
       "object" => {
+        // strided walks on fresh threads (see engine::stride_walks)
+        stride_walks(env, out, "object", env.tier.pick(800, 24000) / nshards as u32, 7000 + shard as u64, 0, (crate::model::NDAYS as i64) - 366, 800, &|x| vec![x, (x * 5).rem_euclid(24)], &ev);
         if shard == 0 {
           // witness of the known AD 24 hole finding, and the days around it
           for (y, m, d) in [(24i64, 1i64, 29i64), (24, 1, 30), (24, 2, 28), (24, 2, 29)] {
